@@ -58,6 +58,20 @@ type authSys struct {
 	hist    []authEvent
 	events  []authEvent
 	monitor func(s *authSys, ev authEvent, trip int, resp *http.Response, err error, before authSnapshot)
+	scopes  map[string]ociauth.Scope // one Scope value per text, handed to every request that names it (callers keep and reuse scope values)
+}
+
+// scopeValue returns the system's single Scope value for a text.
+func (s *authSys) scopeValue(text string) ociauth.Scope {
+	if s.scopes == nil {
+		s.scopes = map[string]ociauth.Scope{}
+	}
+	v, ok := s.scopes[text]
+	if !ok {
+		v = ociauth.ParseScope(text)
+		s.scopes[text] = v
+	}
+	return v
 }
 
 type authSnapshot struct {
@@ -103,7 +117,7 @@ func (s *authSys) Apply(ev authEvent, check bool) (tainted bool) {
 		s.net.tick(time.Duration(ev.Dt * float64(time.Second)))
 		return false
 	}
-	required := ociauth.ParseScope(ev.Required)
+	required := s.scopeValue(ev.Required)
 	before := authSnapshot{issued: len(s.net.issued)}
 	for _, it := range s.net.issued {
 		if it.Host == ev.Host && !s.net.now.Add(2*time.Second).After(it.Issued.Add(it.Lifetime)) && setContains(it.Set, scopeSet(ev.Required)) {
@@ -113,7 +127,7 @@ func (s *authSys) Apply(ev authEvent, check bool) (tainted bool) {
 	ctx := context.Background()
 	ctx = ociauth.ContextWithRequestInfo(ctx, ociauth.RequestInfo{RequiredScope: required})
 	if ev.Desired != "" {
-		ctx = ociauth.ContextWithScope(ctx, ociauth.ParseScope(ev.Desired))
+		ctx = ociauth.ContextWithScope(ctx, s.scopeValue(ev.Desired))
 	}
 	req, _ := http.NewRequestWithContext(ctx, "GET", "https://"+ev.Host+"/v2/x/manifests/t", nil)
 	req.Header.Set("X-Demand", ev.Required)
@@ -364,11 +378,17 @@ func c10RunBatch(r *vcore.Run, b c10Batch, bound int) vsched.Stats {
 		n := newAuthNet(cp)
 		sys = &authSys{r: r, prop: "C10", cfgs: cp, net: n}
 		sys.tr = ociauth.NewStdTransport(ociauth.StdTransportParams{Config: n, Transport: n})
+		// scope values are built once and shared by every request (and thread) that names them
+		shared := map[string]ociauth.Scope{}
+		for _, ev := range append(append([]authEvent(nil), b.Prologue...), b.Threads...) {
+			shared[ev.Required] = ociauth.ParseScope(ev.Required)
+			shared[ev.Desired] = ociauth.ParseScope(ev.Desired)
+		}
 		doReq := func(ev authEvent, trip int) {
 			ctx := context.WithValue(context.Background(), authTripKey{}, trip)
-			ctx = ociauth.ContextWithRequestInfo(ctx, ociauth.RequestInfo{RequiredScope: ociauth.ParseScope(ev.Required)})
+			ctx = ociauth.ContextWithRequestInfo(ctx, ociauth.RequestInfo{RequiredScope: shared[ev.Required]})
 			if ev.Desired != "" {
-				ctx = ociauth.ContextWithScope(ctx, ociauth.ParseScope(ev.Desired))
+				ctx = ociauth.ContextWithScope(ctx, shared[ev.Desired])
 			}
 			req, _ := http.NewRequestWithContext(ctx, "GET", "https://"+ev.Host+"/v2/x/manifests/t", nil)
 			req.Header.Set("X-Demand", ev.Required)
